@@ -95,6 +95,7 @@ type simPeer struct {
 	sessEnd    map[int]time.Duration     // session number -> instant this side saw it end
 	eorSent    map[wFamily]time.Duration // End-of-RIB markers this peer sent on the current session
 	limitMaybe int                       // limit trips whose NOTIFICATION may or may not get through (stalled neighbour)
+	ending     bool // the session is being ended by the neighbour itself or by the operator
 	stalled    bool                      // the neighbour's receive window is full (stall fault)
 	limitHit   bool                      // the model says this session exceeded the configured prefix limit
 	limitTrips int                       // sessions so far that exceeded it
@@ -383,6 +384,7 @@ func (p *simPeer) sessionUp(b *simConn, open *wOpenMsg) {
 	p.sent = map[viewKey]*annRoute{}
 	p.eorSent = map[wFamily]time.Duration{}
 	p.limitHit = false
+	p.ending = false
 	p.downCh = make(chan struct{})
 	p.kaStop = make(chan struct{})
 	p.downWhy = ""
@@ -1085,6 +1087,9 @@ func (p *simPeer) dropSession(kind string) bool {
 // operator) while a Maximum-Prefixes NOTIFICATION is still owed: it may or may not arrive.
 func (p *simPeer) forgoLimitNotification() {
 	p.mu.Lock()
+	// (an overrun caused by an UPDATE that is written after this instant, into a session that is
+	// already being ended, is owed no NOTIFICATION either: see notePrefixLimit)
+	p.ending = true
 	if p.limitHit {
 		got := 0
 		for _, n := range p.notifs {
